@@ -456,6 +456,9 @@ pub fn run_session<C: Autocomplete + Help>(
 
         // ---- invariants (shared by C02/C03)
         rep.eval();
+        if on(P_C03) {
+            rep.seen(hash_u64s(&[3, cfg.cmd as u64, cfg.hist as u64, op_class(op, &key)]));
+        }
         if let Err((class, what)) = check_invariants(&post, post_hist.as_ref()) {
             if class == "utf8" {
                 found!("C02", P_C02, "handout-illformed", "hooked-state", i, "{}", what);
